@@ -35,7 +35,8 @@ CLAIMS['C17'] = dict(
     design_ref='DESIGN.md §5 C17')
 CLAIMS['C07'] = dict(
     text='Proof: compute_rhs is a fold whose step is linear in the voltage (doubled exactly on grounded pulses), '
-         'compute_currents = solve(Z, rhs), compute runs the four stages in order and sums the source powers, '
+         'compute_currents = solve(Z, rhs), compute runs the four stages in order and sums the source powers (executed for two sources with symbolic '
+         'complex voltages on every pulse assignment: the total is the NET input power, sum of Re(V conj I)/2, signed), '
          'Excitation.current/power/impedance and the seven numbers of the source block are V/I and Re(VI*)/2; the '
          'matrix fill never reads source data (frame). Clause not decided: dBi invariance under scaling.',
     note='solve() linear in b (LAPACK) and the transparency of the measure_time decorator are assumed; floats as reals',
@@ -44,7 +45,8 @@ CLAIMS['C08'] = dict(
     text='Proof: compute_impedance_matrix_loads adds, per (load, pulse), exactly -(g/m)*Z*1j on the diagonal (fold over loads and '
          'pulses, doubled exactly on grounded pulses over ground); scalar lemma c = beta*Z_L and the Lean/Mathlib matrix lemma '
          '(any dimension) give "feed impedance rises by exactly Z_L" and additivity; Laplace fold; RLC and trap coefficient '
-         'constructors equal their circuit impedance at every frequency (symbolic R, L, C, f); skin-effect and insulation '
+         'constructors equal their circuit impedance at every frequency (symbolic R, L, C, f; an explicit C = 0 is no capacitor, no division by zero '
+         'at a positive frequency); skin-effect and insulation (also with both loads built by the real constructor on two differently coated objects) '
          'formulas per conductor half with cache coherence; sigma = 1/rho; eps_r = 1; frequency setter re-establishes the cache invariant.',
     note='floats as reals; jv/sqrt/log uninterpreted; Lean lemma recompiled in the thorough tier (quick: hash of last compiled text); '
          'limit sigma -> infinity not decided',
@@ -90,7 +92,7 @@ CLAIMS['C10'] = dict(
          'complex field components, on the real tail slice of compute_far_field and Far_Field_Pattern.__init__: each gain is '
          '10log10(.016678|E|^2/P) with the -999 floor, the total is the power sum, E = field/distance*sqrt(P_requested/P), and '
          'gain = |E|^2 r^2/(59.96 P) within 2e-5; scaling lemma. Clause "radiation sum of the pulse currents plus image currents" '
-         '(free space / ideal ground): the middle of compute_far_field (direction vectors, the loop over image_iter(), projections on '
+         '(free space / ideal ground), normalised with the net input power of the solution (units of Mininec.compute shared with C07): the middle of compute_far_field (direction vectors, the loop over image_iter(), projections on '
          'theta^ and phi^) is executed on arrays of 1x2x2, 2x1x1 and 1x1x3 (zenith x azimuth x pulses) with symbolic values and a pulse grounded at '
          'either end, and equals the sum of half-segment moments and mirror images written from the property -- SHAPE-BOUNDED '
          '(values unbounded), so other array shapes rest on the native sweep. Frame clause shared with C14: compute_far_field writes only its '
@@ -155,7 +157,7 @@ CLAIMS['C15'] = dict(
          'field values, its text is fed to the real reader slice of main(), and the constructor arguments are compared with the fields '
          '(positions by the real signatures); complex literals are decided through rendering classes with Python\'s own complex(). '
          'Also: --rlc-load/--trap-load, --laplace-load-a/-b, --skin-effect-conductivity/-resistivity, --insulation-load, '
-         '--geo-rotate/-translate/-scale; the --attach-load lines of a lumped load (shape-bounded model of 2 objects / 3 pulses, every '
+         '--geo-rotate/-translate/-scale (and two transformations of one kind are written in the order in which they were applied); the --attach-load lines of a lumped load (shape-bounded model of 2 objects / 3 pulses, every '
          'subset, symbolic tags and numbers) attach exactly the load\'s pulses once each when read back; Mininec.as_cmdline writes frequency, '
          'geometry, every source, medium and load once and in order (shape-bounded) and its --theta/--phi lines read back. '
          'Load numbering and whole-model round trips: bounded native round trip only.',
